@@ -15,6 +15,12 @@ CHECKS = {
     "C18": (MC, "4.C18", "explicit-state invariant checking: admissibility invariant evaluated on every reported state of every trace of a lattice that includes coarse discretisations (first step removes 10%..1000% of the feed) and programmes crossing 0 K",
             "No returned trajectory in the explored lattice contains a state with non-positive mass, fractions outside [0,1], non-positive or non-finite temperature, or non-finite fluxes/heats; raising is accepted.",
             "a raising call is always acceptable for this property; lattice, not continuum"),
+    "C02": (EX, "4.C02", "bounded exhaustive enumeration of a finite lattice of flux calculations through a harness-side observing subclass (seam on the fixed-point iteration); driving-force law at the last evaluated permeate composition, vacuum law, pressure identity, self-consistency where contractive, bit-exact power-of-two scaling",
+            "Every returned flux pair in the lattice satisfies the solution-diffusion law at the permeate composition actually used (1e-12), and the exact-scaling twin runs are bit-identical.",
+            "get_partial_pressures taken as given (C04); pressure mode accepts mass or mole permeate fractions; raising/non-converging cases only counted (C10)"),
+    "C10": (MC, "4.C10", "lasso detection on the exact float orbit of the permeate-composition iteration (explicit-state liveness): a revisited float state plus continued iteration beyond B=1e6 evaluations is a violation; aperiodic budget exhaustion is undecided; also every step of process models near equilibrium",
+            "No flux calculation in the lattice (dense near feed/permeate equilibrium, where attracting cycles exist) is still iterating on a periodic orbit after 1e6 evaluations; periodic orbits found are reported and all end in an error.",
+            "B=1e6 is the harness's reading of 'bounded'; memoised evaluation after proved periodicity; undecided orbits are not violations"),
 }
 def main():
     checks = []
